@@ -543,6 +543,7 @@ class MockIncludeDirective:
                 # (on top of the offset of an include that this one is nested in)
                 heading_offset=self.renderer._heading_offset
                 + self.options.get("heading-offset", 0),
+                allow_front_matter=True,
             )
         finally:
             self.document.myst_include_stack.pop()
